@@ -38,6 +38,9 @@ Clause(prev, ev) ==
            IF ev.exc # "" THEN "C19:extract-raises"
            ELSE IF FirstBadRule(ev.impl) # "ok" THEN FirstBadRule(ev.impl)
            ELSE IF prev.has /\ \E p \in Registered(ev.impl) : Abs(W(ev.impl, p) - prev.w[p]) > Tol THEN "C19:not-idempotent"
+           \* "extracting the same grammar again changes nothing": not even the last bit of a weight (weighted choices
+           \* truncate scaled weights to integers, so a drift of one ulp can change a seeded run)
+           ELSE IF prev.has /\ ~ev.exact_same THEN "C19:not-idempotent-to-the-bit"
            ELSE "ok"
       [] ev.e = "choose" ->
            IF ev.exc # "" THEN "C19:chooser-raises"
